@@ -88,6 +88,11 @@ def readable_count(count):
             num_str = format(count / factor, ".0f")
         else:
             num_str = format(count / factor, ".1f")
+            if len(num_str) > 3:
+                # The value rounds up to "10.0": drop the fractional part
+                # instead of skipping to the next prefix (which would print
+                # "0.0")
+                num_str = format(count / factor, ".0f")
         if len(num_str) <= 3:
             return num_str + " " + prefix
     # Fallback: use the last prefix
